@@ -13,9 +13,26 @@ import numpy as np
 LIB_VERSION = (1, 2, 1)
 
 
+_uid = [0]
+
+
+def reset_uids():
+    _uid[0] = 0
+
+
 class MObj:
+    """Every model object gets a serial number that is unique within a run.  (Never key harness
+    state by id(): addresses are reused once an object is freed, and whether that happens depends on
+    the allocation history of the whole process - a nondeterminism leak that showed up as a
+    violation that did not replay.)"""
     kind = "?"
     is_model = True
+
+    def __new__(cls, *a, **k):
+        o = object.__new__(cls)
+        _uid[0] += 1
+        o.uid = _uid[0]
+        return o
 
     def __repr__(self):
         return "<M%s %s>" % (self.kind, getattr(self, "name", getattr(self, "id", "")))
